@@ -537,7 +537,7 @@ func runC11(w *World, c *Check) {
 				}
 			}
 		}
-		c.Decide(nMake > 0 && unbuffered == "", "C11.lockorder", "client", "chan-send:"+k, "-", "a channel sent on while a lock is held has room for the signal (capacity ≥ 1): the send cannot wait for a receiver that has ended or is itself waiting for the lock",
+		c.Decide(nMake > 0 && unbuffered == "", "C11.lockorder", "client", "chan-send:"+k, "-", "a channel sent on while a lock is held has room for one signal (capacity ≥ 1): the first cancellation of a session never waits for a receiver that has ended or is itself waiting for the lock (whether one session object can be cancelled twice without a receiver is a question about histories, not decided here)",
 			fmt.Sprintf("%s; the channel is created without buffer at %s (%d creation sites found)", chanUnderLock[k], unbuffered, nMake))
 	}
 
